@@ -104,6 +104,26 @@ Fixpoint run_op (depth : nat) (op : bytes) (input : arg) : arg :=
   else if bytes_eqb op (bs "dsaparamsder") then obs_info (KeysDer.parse_dsa_parameters_der (arg_bytes i0))
   else if bytes_eqb op (bs "spkider") then obs_info (KeysDer.parse_pkix_der (ecparams_of i1) (arg_bytes i0))
   else if bytes_eqb op (bs "pkcs8der") then obs_info (KeysDer.parse_pkcs8_der (ecparams_of i1) (arg_bytes i0))
+  (* the DER writers the from-the-bytes theorems are about, against asn1.Marshal of the repository's structs *)
+  else if bytes_eqb op (bs "derenc") then
+    let k := arg_bytes i0 in
+    let raw := match arg_list i1 with x :: _ => arg_bytes x | [] => [] end in
+    let a := map (fun x => be_to_N (arg_bytes x)) (arg_list i1) in
+    let z := fun i => nth i a 0 in
+    AL [AZ 0%Z; AB (
+      if bytes_eqb k (bs "pkcs1pub") then KeysDer.enc_pkcs1_public (z 0%nat) (z 1%nat)
+      else if bytes_eqb k (bs "pkcs1priv") then
+        KeysDer.enc_pkcs1_private (z 0%nat) (z 1%nat) (z 2%nat) (z 3%nat) (z 4%nat) (z 5%nat) (z 6%nat) (z 7%nat)
+      else if bytes_eqb k (bs "dsaparams") then KeysDer.enc_dsa_parameters (z 0%nat) (z 1%nat) (z 2%nat)
+      else if bytes_eqb k (bs "dsapriv") then KeysDer.enc_dsa_private (z 0%nat) (z 1%nat) (z 2%nat) (z 3%nat) (z 4%nat)
+      else if bytes_eqb k (bs "spkirsa") then KeysDer.enc_spki_rsa (z 0%nat) (z 1%nat)
+      else if bytes_eqb k (bs "spkidsa") then KeysDer.enc_spki_dsa (z 0%nat) (z 1%nat) (z 2%nat) (z 3%nat)
+      else if bytes_eqb k (bs "pkcs8rsa") then
+        KeysDer.enc_pkcs8_rsa (z 0%nat) (z 1%nat) (z 2%nat) (z 3%nat) (z 4%nat) (z 5%nat) (z 6%nat) (z 7%nat)
+      else if bytes_eqb k (bs "pkcs8dsa") then KeysDer.enc_pkcs8_dsa (z 0%nat) (z 1%nat) (z 2%nat) (z 3%nat)
+      else if bytes_eqb k (bs "spkied25519") then KeysDer.enc_spki_ed25519 raw
+      else if bytes_eqb k (bs "pkcs8ed25519") then KeysDer.enc_pkcs8_ed25519 raw
+      else [])]
   else if bytes_eqb op (bs "pkcs1pub") then obs_info (parse_pkcs1_public (opt_bytes i1))
   else if bytes_eqb op (bs "pkcs1priv") then obs_info (parse_pkcs1_private (opt_bytes i1))
   else if bytes_eqb op (bs "dsapriv") then obs_info (parse_dsa_private (opt_bytes i1))
@@ -381,7 +401,7 @@ Definition check_ssh1_cipher (spec : arg) (data : bytes) (obs : arg) : arg :=
   end.
 
 Definition check_C02 (op : bytes) (input impl : arg) : arg :=
-  if bytes_eqb op (bs "int") || bytes_eqb op (bs "crypto") then AL []
+  if bytes_eqb op (bs "int") || bytes_eqb op (bs "crypto") || bytes_eqb op (bs "derenc") then AL []
   else if bytes_eqb op (bs "kdf") then
     match impl with AL [AZ 2%Z] => AS "parseKdfOptions panics" | _ => AL [] end
   else if bytes_eqb op (bs "ssh1") then
